@@ -34,7 +34,25 @@ THEOREMS = [
     'Sbepp.Properties.C04.cursor_traversal_end_image',
     'Sbepp.Properties.C04.cursor_traversal_end_schema',
     'Sbepp.Properties.C04.cursor_traversal_end_full_false',
-]
+    # the same statements about the member functions as translated from the current sbepp.hpp (extract/methods_cursor.py)
+    'Sbepp.Properties.C04.cursor_step_field_extracted',
+    'Sbepp.Properties.C04.cursor_step_set_extracted',
+    'Sbepp.Properties.C04.cursor_step_group_extracted',
+    'Sbepp.Properties.C04.cursor_step_data_extracted',
+    'Sbepp.Properties.C04.cursor_step_protocol_extracted',
+    'Sbepp.Properties.C04.cursor_wrong_position_reported_extracted',
+    'Sbepp.Properties.C04.cursor_checked_get_inside_view_extracted',
+    'Sbepp.Properties.C04.cursor_checked_set_inside_view_extracted',
+    'Sbepp.Lemmas.CursorTie.stepFieldX_eq',
+    'Sbepp.Lemmas.CursorTie.stepSetX_eq',
+    'Sbepp.Lemmas.CursorTie.stepGroupX_eq',
+    'Sbepp.Lemmas.CursorTie.stepDataX_eq',
+] + ['Sbepp.Lemmas.CursorTie.%s.%s_tie' % (_c, _m)      # translated method = hand model, per (class, method)
+     for _c in ('C', 'I', 'IDM', 'DM', 'S')
+     for _m in ('get_value', 'set_value', 'get_last_value', 'set_last_value', 'get_static_field_view',
+                'get_last_static_field_view', 'get_first_group_view', 'get_first_data_view', 'get_group_view',
+                'get_data_view')
+     if not (_c == 'S' and _m.startswith('set_'))]
 
 MOVING = ('plain', 'init', 'skip')
 
@@ -785,6 +803,9 @@ def run(chk):
         chk.cov['distinct_nontrivial'] += len(cr.distinct)
     if chk.failed_obligations and not chk.violations:
         chk.report_unproved('theorem', chk.failed_obligations)
+    mfail = ((chk.extract_report or {}).get('parts', {}).get('methods_cursor') or {}).get('failed')
+    if mfail and not chk.violations:
+        chk.report_unproved('extraction', {'extractor': 'methods_cursor', 'failed': mfail})
     chk.assumptions += [
         'the random-access getter passed to get_group_view/get_data_view is modelled by the position functions of '
         'Rt.Walk (C02/C03); its internal size checks are not part of this model',
